@@ -83,6 +83,9 @@ def main(argv):
     global REPO
     if "--spec" in argv:
         return spec_variants()
+    if "--binding" in argv:
+        import binding
+        return binding.main(argv)
     check_root = ROOT
     if "--sbx" in argv:
         # run in the sandbox copy of tools/seed.py (/tmp/sbx): /repo itself is never touched
